@@ -102,6 +102,10 @@ class C02(Prop):
         kws = [f"{n}={arg()}" for n in rng.sample(["k", "base", "x"], rng.choice([0, 0, 1, 2]))]
         if kws and rng.random() < 0.08:
             kws.append(f"{kws[0].split('=')[0]}={arg()}")
+        if rng.random() < 0.10:
+            kws.append(rng.choice(["**{'a': 1}", "**{}", "**pi", "**{'k': 0}"]))
+        if rng.random() < 0.06:
+            args.append(rng.choice(["*[1, 2]", "*()", "*pi"]))
         return f"{rng.choice(['ident', 'ident', 'tool1'])}({', '.join(args + kws)})"
 
     def _case(self, rng, depth):
@@ -222,10 +226,20 @@ class C02(Prop):
                      "ident()", "ident(1 < 2 < 3, x=2 ** 10)", "ident(k=round(1.5), base=round(2.5), k=3)",
                      "tool1(ident(1))", "ident(abs(-1), abs(k=1, k=2))", "ident(1 if 1 else abs(k=1, k=2))",
                      "ident(10 ** 400 * 1.5)", "ident(2.0 ** 5000, 1)", "ident(1/0)", "ident(zz)", "ident(true)",
-                     "ident([1, (2, 3)], ('a',))", "ident(sum([1, 2], start=1), k=float('inf'))"]
+                     "ident([1, (2, 3)], ('a',))", "ident(sum([1, 2], start=1), k=float('inf'))",
+                     # star / double-star unpacking is outside the grammar: refuse, never drop
+                     "ident(**{'a': 1})", "ident(1, **{'a': 1})", "ident(k=2, **{'a': 1})", "ident(**pi)", "ident(**zz)",
+                     "ident(*[1, 2])", "ident(*(1, 2), 3)", "ident(*pi)", "ident(abs(*[-1]))", "ident(abs(**{}))",
+                     "ident(max(1, 2, **{'key': abs}))", "ident(**{})", "tool1(1, **{'k': ident(2)})",
+                     "ident(round(2.567, **{'ndigits': 1}))", "ident(**{'a': 1}, **{'b': 2})"]
+        MATHSTAR = ["abs(*[-1])", "round(2.567, **{'ndigits': 1})", "max(*[1, 2])", "max(1, 2, **{})", "abs(**{})",
+                    "round(2.567, **pi)", "min(*(3, 4), 5)", "int('11', **{'base': 2})", "len(*[[1]])", "sum([1], **zz)",
+                    "1 + abs(*[-1])", "not abs(**{})", "abs(-1) if 1 else abs(*[1])"]
         lines = mito.header(rng, self.facts, tools=self.TOOLS, silent=True, ros=(1000, 1))
         for src in TOOLTEXTS:
             lines += [mito.cmet_line("tool", src), mito.cmet_line("auto", src)]
+        for src in MATHSTAR:
+            lines += [mito.cmet_line("math", src), mito.cmet_line("logic", src), mito.cmet_line("auto", src)]
         cases.append({"lines": lines, "note": "tool-pathway arguments"})
         LEGACY = ["5 if 2 > 1 else 7", "0 or 5", "'<' * 3", "1 < 2", "not 0", "true", "'true'", "2 + 2", "7 / 2", "7 // 2",
                   "round(2.567, ndigits=1)", "[1, 2] + [3]", "(1, 'a')", "'a' + 'b'", "2 ** 0.5", "-0.0", "1e22", "1e16",
